@@ -382,8 +382,13 @@ def issub_harness(I: Interp) -> None:
     table = issub_table()
     srv = VObj(SV.UDSServer, {})
     for sid in range(256):
-        r = I.call_py(SV.UDSServer._is_sub_function_service, [srv, VInt(sid)], {},
-                      SV.UDSServer)
+        try:
+            r = I.call_py(SV.UDSServer._is_sub_function_service, [srv, VInt(sid)], {},
+                          SV.UDSServer)
+        except PyExc as e:
+            # every byte is a possible service id of a request: the rules must answer, not raise
+            I.fail(f"T-is-sub-function-service({sid:#04x})-does-not-raise", e.exc.cls.__name__)
+            continue
         t = I.truth(r)
         I.prove(f"T-is-sub-function-service({sid:#04x})",
                 z3.BoolVal(t == (sid in table)) if isinstance(t, bool) else t == (sid in table))
